@@ -25,13 +25,22 @@ Definition row_close (m : Q) (r : xrow Q) (o : list fl) : bool :=
   | XNan => forallb fl_is_nan o && Nat.eqb (length o) 3
   end.
 
+(* what holds of every outcome whatever the signs: only ValueError is raised, every returned row is finite and
+   there is at least one (C06_result_finite_not_behind, C06_only_value_error on the model) *)
+Definition fl_finite (o : fl) : bool := match o with Fin _ => true | _ => false end.
+Definition sane (o : result (list (list fl))) : bool :=
+  match o with
+  | Ok rows => forallb (fun r => forallb fl_finite r && Nat.eqb (length r) 3) rows && negb (Nat.eqb (length rows) 0)
+  | Raise e => exn_eqb e ValueError
+  end.
+
 Definition check_case (c : case) : bool :=
   match c with
   | CSlice exact closed pl vs o =>
       let m := mag_of vs (Qmax' 1 (vmag (pref pl))) in
       if forallb (fun v => decided exact m (plane_sd QOps pl v)) vs
       then res_agree (all2 (row_close m)) (sliced_by_plane QOps pl (MkPolyline vs closed)) o
-      else true
+      else sane o   (* some side is within rounding: only what does not depend on the classification *)
   | CXsect start seg ref n o =>
       let m := mag_of [start; seg; ref] 1 in
       row_close m (intersect_segment_with_plane QOps start seg ref n) o
